@@ -17,7 +17,7 @@
 (* (Subscribe returns, handler callbacks, frames seen by the server,       *)
 (* Stats()) are what the harness logs; everything else is internal.        *)
 (*                                                                         *)
-(* The module describes the code AS IT IS (Fixed = FALSE):                 *)
+(* With Fixes = {} the module describes the code AS IT WAS PINNED:         *)
 (*  - the dialling subscriber dials with its own ctx and publishes its     *)
 (*    error to every waiter (DialCtx, WakeDoneErr: blame "foreign_dial"),  *)
 (*  - the subscribe frame is written with the subscriber's ctx; when that  *)
@@ -28,9 +28,17 @@
 (*    last subscriber left because it was cancelled),                      *)
 (*  - removeConn deletes by key and a finished dial is stored without      *)
 (*    looking at closed (ShutEnd, PubMapOk).                               *)
-(* Fixed = TRUE is the smallest repair (waiters/registrants whose own ctx  *)
-(* is alive start over, the write does not use the subscriber ctx, map     *)
-(* updates compare identities); with it every property below holds.        *)
+(* Fixes names the repairs that are in the tree (fixes/C18-*.patch):       *)
+(*  "dial"  a waiter whose own ctx is alive starts over when the shared    *)
+(*          dial failed while the dialler was going away; the maps are     *)
+(*          updated before close(result.done),                             *)
+(*  "write" subscribe gives up before writing when its ctx is done and     *)
+(*          writes with a deadline derived from the connection's ctx,      *)
+(*  "close" Subscribe looks for another connection when the one it got is  *)
+(*          closed before it could register,                               *)
+(*  "map"   removeConn compares identities, a closed connection is not     *)
+(*          published.                                                     *)
+(* With all four every property below holds.                               *)
 (***************************************************************************)
 EXTENDS Integers, Sequences, FiniteSets, TLC
 
@@ -39,7 +47,7 @@ CONSTANTS N,           \* subscribers
           MaxConn,     \* connection instances (dials)
           MaxFrames,   \* frames the upstream sends in total
           MaxCancels,  \* context cancellations
-          Fixed        \* FALSE: the code as it is
+          Fixes        \* subset of {"dial", "write", "close", "map"}: repairs present in the code ({} = pinned code)
 
 Subs  == 1..N
 Keys  == 1..NK
@@ -48,6 +56,7 @@ None  == 0
 Kinds == {"next", "complete", "error"}
 CtxRes == {"ctx", "initctx"}                 \* dial results caused by the dialler's own context
 Foreign == {"foreign_dial", "foreign_write", "foreign_close"}
+Fix(x) == x \in Fixes
 
 VARIABLES
   cfg,       \* [key: Subs -> Keys, idle: "zero"|"pos"]  (fixed after Init)
@@ -71,6 +80,7 @@ SubInit  == [pc |-> "idle", err |-> "none", blame |-> "none", ctxc |-> FALSE, cp
 ConnInit == [key |-> None, dialler |-> None,
              stage |-> "none",      \* client side of the dial: none | req | init | ok | failed
              res |-> "none",        \* dialResult: none | ok | ctx | initctx | dial | init
+             cgone |-> FALSE,       \* the dialler's ctx was done when the dial returned (dialResult.callerGone)
              done |-> FALSE,        \* close(result.done) happened
              pub |-> FALSE,         \* map update after the dial happened
              closed |-> FALSE,      \* wsConnection.closed
@@ -161,7 +171,8 @@ GetOrDial(s) ==
 (* The dial (runs on the dialler's goroutine with the dialler's ctx), 238-309 *)
 
 DialStage(c, st, r) ==
-  /\ conn' = [conn EXCEPT ![c].stage = st, ![c].res = r, ![c].sock = IF r = "ok" THEN "open" ELSE conn[c].sock]
+  /\ conn' = [conn EXCEPT ![c].stage = st, ![c].res = r, ![c].sock = IF r = "ok" THEN "open" ELSE conn[c].sock,
+                          ![c].cgone = IF st \in {"ok", "failed"} THEN sub[conn[c].dialler].ctxc ELSE FALSE]
   /\ UNCHANGED <<cfg, sub, subs, dialing, conns, down, hlog, sent, nconn, nframes, ncancel>>
 
 DialUpgraded(c)   == conn[c].stage = "req" /\ conn[c].srv = "gate_ack" /\ DialStage(c, "init", "none")
@@ -171,23 +182,28 @@ DialInitFailed(c) == conn[c].stage = "init" /\ ~conn[c].acked /\ conn[c].srv = "
 DialCtx(c)        == /\ conn[c].stage \in {"req", "init"} /\ sub[conn[c].dialler].ctxc
                      /\ DialStage(c, "failed", IF conn[c].stage = "req" THEN "ctx" ELSE "initctx")
 
-\* 223-225 result.conn/err set, close(result.done)
+\* result.conn/err set, close(result.done) and the map update under t.mu: pinned code closes done first,
+\* the "dial" repair updates the maps first
+DialOver(c) == conn[c].stage \in {"ok", "failed"}
+MayPubDone(c) == DialOver(c) /\ ~conn[c].done /\ (Fix("dial") => conn[c].pub)
+MayPubMap(c)  == DialOver(c) /\ ~conn[c].pub /\ (~Fix("dial") => conn[c].done)
+
 PubDone(c) ==
-  /\ conn[c].stage \in {"ok", "failed"} /\ ~conn[c].done
+  /\ MayPubDone(c)
   /\ conn' = [conn EXCEPT ![c].done = TRUE]
   /\ UNCHANGED <<cfg, sub, subs, dialing, conns, down, hlog, sent, nconn, nframes, ncancel>>
 
 \* 227-235 under t.mu: delete(dialing,key); conns[key] = conn -- whatever state conn is in by now
 PubMapOk(c) ==
-  /\ conn[c].done /\ ~conn[c].pub /\ conn[c].res = "ok"
+  /\ MayPubMap(c) /\ conn[c].res = "ok"
   /\ dialing' = [dialing EXCEPT ![conn[c].key] = None]
-  /\ conns' = IF Fixed /\ conn[c].closed THEN conns ELSE [conns EXCEPT ![conn[c].key] = c]
+  /\ conns' = IF Fix("map") /\ conn[c].closed THEN conns ELSE [conns EXCEPT ![conn[c].key] = c]
   /\ conn' = [conn EXCEPT ![c].pub = TRUE]
   /\ sub' = [sub EXCEPT ![conn[c].dialler].pc = "haveconn"]
   /\ UNCHANGED <<cfg, subs, down, hlog, sent, nconn, nframes, ncancel>>
 
 PubMapErr(c) ==
-  /\ conn[c].done /\ ~conn[c].pub /\ conn[c].res # "ok"
+  /\ MayPubMap(c) /\ conn[c].res # "ok"
   /\ dialing' = [dialing EXCEPT ![conn[c].key] = None]
   /\ conn' = [conn EXCEPT ![c].pub = TRUE]
   /\ sub' = Fail(conn[c].dialler, conn[c].res, IF conn[c].res \in CtxRes THEN "own" ELSE "upstream")
@@ -201,18 +217,21 @@ WakeDoneOk(s) ==
   /\ sub' = [sub EXCEPT ![s].pc = "haveconn"]
   /\ UNCHANGED <<cfg, conn, subs, dialing, conns, down, hlog, sent, nconn, nframes, ncancel>>
 
-Retry(s) == Fixed /\ ~sub[s].ctxc
+\* "dial": result.callerGone && ctx.Err() == nil -> continue
+RetryDial(s) == Fix("dial") /\ ~sub[s].ctxc /\ conn[sub[s].tgt].cgone
+\* "close": errors.Is(err, ErrConnectionClosed) && ctx.Err() == nil -> continue (the code gives up after 3 attempts)
+RetryClose(s) == Fix("close") /\ ~sub[s].ctxc
 
 \* the waiter is handed the dialler's error -- including the dialler's own context.Canceled
 WakeDoneErr(s) ==
   /\ sub[s].pc = "waiting" /\ conn[sub[s].tgt].done /\ conn[sub[s].tgt].res # "ok"
-  /\ ~(Retry(s) /\ conn[sub[s].tgt].res \in CtxRes)
+  /\ ~RetryDial(s)
   /\ LET r == conn[sub[s].tgt].res IN
      sub' = Fail(s, r, IF r \in CtxRes THEN (IF sub[s].ctxc THEN "own" ELSE "foreign_dial") ELSE "upstream")
   /\ UNCHANGED <<cfg, conn, subs, dialing, conns, down, hlog, sent, nconn, nframes, ncancel>>
 
 WakeDoneRetry(s) ==
-  /\ sub[s].pc = "waiting" /\ conn[sub[s].tgt].done /\ conn[sub[s].tgt].res \in CtxRes /\ Retry(s)
+  /\ sub[s].pc = "waiting" /\ conn[sub[s].tgt].done /\ conn[sub[s].tgt].res # "ok" /\ RetryDial(s)
   /\ sub' = [sub EXCEPT ![s].pc = "start", ![s].tgt = None]
   /\ UNCHANGED <<cfg, conn, subs, dialing, conns, down, hlog, sent, nconn, nframes, ncancel>>
 
@@ -231,19 +250,19 @@ RegisterOk(s) ==
   /\ UNCHANGED <<cfg, conn, dialing, conns, down, hlog, sent, nconn, nframes, ncancel>>
 
 RegisterClosed(s) ==
-  /\ sub[s].pc = "haveconn" /\ conn[sub[s].tgt].closed /\ ~Retry(s)
+  /\ sub[s].pc = "haveconn" /\ conn[sub[s].tgt].closed /\ ~RetryClose(s)
   /\ sub' = Fail(s, "closed", CauseBlame(sub[s].tgt, s))
   /\ UNCHANGED <<cfg, conn, subs, dialing, conns, down, hlog, sent, nconn, nframes, ncancel>>
 
 RegisterRetry(s) ==
-  /\ sub[s].pc = "haveconn" /\ conn[sub[s].tgt].closed /\ Retry(s)
+  /\ sub[s].pc = "haveconn" /\ conn[sub[s].tgt].closed /\ RetryClose(s)
   /\ sub' = [sub EXCEPT ![s].pc = "start", ![s].tgt = None]
   /\ UNCHANGED <<cfg, conn, subs, dialing, conns, down, hlog, sent, nconn, nframes, ncancel>>
 
 \* protocol.Subscribe(ctx+writeTimeout): the frame reaches the server
 WriteOk(s) ==
   /\ sub[s].pc = "registered" /\ conn[sub[s].tgt].sock = "open"
-  /\ ~sub[s].ctxc \/ sub[s].cpend \/ Fixed
+  /\ ~sub[s].ctxc \/ sub[s].cpend \/ Fix("write")
   /\ conn' = [conn EXCEPT ![sub[s].tgt].ssubs = @ \cup {s}]
   /\ sub' = [sub EXCEPT ![s].pc = "ok"]
   /\ UNCHANGED <<cfg, subs, dialing, conns, down, hlog, sent, nconn, nframes, ncancel>>
@@ -269,7 +288,7 @@ WriteCancelSafe(s) ==
 \* own ctx already cancelled, the lock is acquired: setupWriteTimeout(ctx) -> context.AfterFunc fires at once and
 \* closes the SHARED socket; the write itself may or may not have gone through
 WriteCancelKillOk(s) ==
-  /\ ~Fixed
+  /\ ~Fix("write")
   /\ sub[s].pc = "registered" /\ conn[sub[s].tgt].sock = "open" /\ sub[s].ctxc
   /\ LET c == sub[s].tgt IN
        /\ conn' = [conn EXCEPT ![c].sock = "closed", ![c].cause = "kill", ![c].ssubs = @ \cup {s}]
@@ -277,7 +296,7 @@ WriteCancelKillOk(s) ==
   /\ UNCHANGED <<cfg, subs, dialing, conns, down, hlog, sent, nconn, nframes, ncancel>>
 
 WriteCancelKillErr(s) ==
-  /\ ~Fixed
+  /\ ~Fix("write")
   /\ sub[s].pc = "registered" /\ conn[sub[s].tgt].sock = "open" /\ sub[s].ctxc
   /\ LET c == sub[s].tgt
          r == [RemoveRec(c, s, TRUE) EXCEPT !.sock = "closed", !.cause = "kill"] IN
@@ -351,7 +370,7 @@ ShutNotify(c, h) ==
 ShutEnd(c) ==
   /\ conn[c].shut = "notify" /\ conn[c].pending = {}
   /\ conn' = [conn EXCEPT ![c].shut = "done"]
-  /\ conns' = IF Fixed /\ conns[conn[c].key] # c THEN conns ELSE [conns EXCEPT ![conn[c].key] = None]
+  /\ conns' = IF Fix("map") /\ conns[conn[c].key] # c THEN conns ELSE [conns EXCEPT ![conn[c].key] = None]
   /\ UNCHANGED <<cfg, sub, subs, dialing, down, hlog, sent, nconn, nframes, ncancel>>
 
 \* time.AfterFunc(idleTimeout): closes when the map is empty *now*
@@ -427,7 +446,7 @@ BusyConn(c) ==
   \/ conn[c].stage = "req" /\ conn[c].srv \in {"gate_ack", "rejected"}
   \/ conn[c].stage = "init" /\ (conn[c].acked \/ conn[c].srv = "closed")
   \/ conn[c].stage \in {"req", "init"} /\ sub[conn[c].dialler].ctxc
-  \/ conn[c].stage \in {"ok", "failed"} /\ ~conn[c].pub
+  \/ conn[c].stage \in {"ok", "failed"} /\ (~conn[c].pub \/ ~conn[c].done)
   \/ ReadLive(c) /\ (conn[c].sock = "closed" \/ down[c] # <<>>)
   \/ conn[c].shut = "notify"
 
